@@ -1194,7 +1194,9 @@ where
 
         let guard = self.ptr_guard();
         let mut ptr = guard.as_ptr() as *const Packed<T>;
-        let start = ptr;
+        // Count the elements instead of measuring the pointer distance, which is undefined
+        // (and panics) for zero-sized element types.
+        let mut copied = 0;
 
         for v in buf.iter_mut().take(self.len()) {
             // SAFETY: read_volatile is safe because the pointers are range-checked when
@@ -1205,10 +1207,10 @@ where
                 *v = read_volatile(ptr).0;
                 ptr = ptr.add(1);
             }
+            copied += 1;
         }
 
-        // SAFETY: It is guaranteed that start and ptr point to the regions of the same slice.
-        unsafe { ptr.offset_from(start) as usize }
+        copied
     }
 
     /// Copies as many bytes as possible from this slice to the provided `slice`.
